@@ -1421,6 +1421,12 @@ func (e *Entry) Find(name string) *Entry {
 	if parts[0] == "" {
 		parts = parts[1:]
 		contextNode := e.Node
+		// An entry that was made on demand (the input or output of an rpc
+		// or action that writes none) has no node of its own: its prefixes
+		// are those of the nearest ancestor that has one.
+		for a := e.Parent; contextNode == nil && a != nil; a = a.Parent {
+			contextNode = a.Node
+		}
 		for e.Parent != nil {
 			e = e.Parent
 		}
